@@ -252,6 +252,11 @@ def nested_identity(ctx, i):
         cur = {"name": f"wrap{d}", "nodes": [{"k": "sub", "name": cur["name"], "prog": cur}], "bind": {}}
         path.insert(0, cur["nodes"][0]["name"])
     top = cur
+    # an ordinary sibling of the outermost wrapper, runnable in the very step in which the nested graph pauses:
+    # its finished output is part of the values computed before the pause
+    sibling = rng.random() < 0.5
+    if sibling:
+        top["nodes"].append({"k": "fn", "name": "sib", "params": [{"n": "sib_in"}], "outs": ["sib_out"]})
     # the wrappers' names are the inner program names
     inputs = {r: f"run:{r}" for r in ref.ref_inputs(top)[0]}
     o = core.execute(top, inputs, "async", sched=rt.Sched(default="rand", rng=rng))
@@ -271,12 +276,20 @@ def nested_identity(ctx, i):
         ctx.violation("C14:nested-response-key", f"response_key={o.pause.response_key!r}, expected {want_key!r}", case)
     if R.paused is not None and o.pause.value != R.paused[1]:
         ctx.violation("C14:nested-value", f"pause.value={core.short(o.pause.value)} expected {core.short(R.paused[1])}", case)
+    if sibling and any(e[0] == "exit" and e[1].endswith("/sib") for e in o.rec.ev):
+        ctx.obs["nested_pause_sibling_checked"] += 1
+        want = (f"{top['name']}/sib", (("sib_in", inputs["sib_in"]),))
+        if (o.values or {}).get("sib_out") != want:
+            ctx.violation("C14:computed-value-missing", f"the sibling of the pausing nested graph returned before the pause, but the PAUSED result's values are {core.short(o.values)} (sib_out missing or wrong)", case)
     # resume: the answer goes under the reported key(s); the history must end like the run whose handler answers
     answers = answers_for(inner, rng)
     auto_top = copy.deepcopy(top)
     lvl = auto_top
-    while lvl["nodes"][0]["k"] == "sub" and len(lvl["nodes"]) == 1:
-        lvl = lvl["nodes"][0]["prog"]
+    while True:
+        nxt = next((n_ for n_ in lvl["nodes"] if n_["k"] == "sub"), None)
+        if nxt is None:
+            break
+        lvl = nxt["prog"]
     lvl["nodes"] = auto_spec(lvl, answers)["nodes"]
     oa = core.execute(auto_top, inputs, "async", sched=rt.Sched(default="rand", rng=rng))
     if oa.exc is not None or oa.status != "completed":
